@@ -393,6 +393,11 @@ class Flow:
             self.exits.append(("raise", node, s))
         if out.normal is not None:
             self.exits.append(("fallthrough", self.fn, out.normal))
+        # when only a loop body is analysed (body=...), continue/break leave the analysed region
+        for s in out.cont:
+            self.exits.append(("continue", self.fn, s))
+        for s in out.brk:
+            self.exits.append(("break", self.fn, s))
         return self
 
     def block(self, stmts: List[ast.stmt], st: Optional[State]) -> Out:
